@@ -629,7 +629,11 @@ class Builder:
         parents = [(n, d) for n, d in self.idx.types(('struct',)) if self.idx.children(n, d['name'])]
         if not parents:
             return
-        n, d = g.choice(parents)
+        def depth(nn, dd, k=0):
+            return max([depth(cn, cd, k + 1) for cn, cd in self.idx.children(nn, dd['name'])] or [k]) \
+                if k < 6 else k
+        deep = [(nn, dd) for nn, dd in parents if depth(nn, dd) >= 2]
+        n, d = g.choice(deep if deep and g.p(70) else parents)
         ns = self.idx.ns[n]
         by_caller = {}
         for a in self.visible_annotations(ns):
@@ -695,6 +699,18 @@ class Builder:
                     if red_aliases and g.p(25):
                         a_ = g.choice(red_aliases)
                         t = g.choice([a_, ('nullable', a_), ('list', ('nullable', a_), None, None)])
+                    elif cfg.union_struct_bias and g.p(30):
+                        # struct-valued members, preferring structs with enumerated subtypes:
+                        # their wire form nests under the tag key instead of being flattened
+                        structs = self.visible(ns, ('struct',))
+                        trees = [x for x in structs if x[1].get('subtypes')]
+                        pool = trees if trees and g.p(60) else structs
+                        if pool:
+                            n_, s_ = g.choice(pool)
+                            r = ('ref', n_, s_['name'])
+                            t = g.choice([r, ('nullable', r), ('nullable', r), ('list', r, None, None)])
+                        else:
+                            t = None
                     elif g.p(45):
                         t = None     # Void tag (LR "Union": type omitted)
                     else:
